@@ -75,9 +75,9 @@ def read (maxMsg : Nat) (st : RState) (s : Script) (m : Nat) : (Bytes × Option 
 def run (maxMsg : Nat) : RState → Script → List Nat → List (Bytes × Option Err) × RState × Script
   | st, s, [] => ([], st, s)
   | st, s, m :: ms =>
-    let (r, st', s') := read maxMsg st s m
-    let (rs, st'', s'') := run maxMsg st' s' ms
-    (r :: rs, st'', s'')
+    let r := read maxMsg st s m
+    let rs := run maxMsg r.2.1 r.2.2 ms
+    (r.1 :: rs.1, rs.2.1, rs.2.2)
 
 def reads (maxMsg : Nat) (s : Script) (sizes : List Nat) : List (Bytes × Option Err) :=
   (run maxMsg {} s sizes).1
@@ -122,13 +122,14 @@ def wstep (max : Nat) (s : WState) : WOp → WState × WOut
     else ({ s with buffered := s.buffered + n }, .wrote n)
   | .drain k =>
     let b' := s.buffered - k
-    let fire := decide (s.buffered > max / 2) && decide (b' ≤ max / 2)
-    match s.blocked, fire with
-    | some n, true =>
-      -- the callback puts the token, the blocked writer takes it and forwards its message
-      ({ s with buffered := b' + n, blocked := none }, .woke n)
-    | _, true => ({ s with buffered := b', token := true }, .none)
-    | _, false => ({ s with buffered := b' }, .none)
+    if s.buffered > max / 2 ∧ b' ≤ max / 2 then
+      -- the amount crossed the threshold from above: the callback puts the token
+      match s.blocked with
+      | some n =>
+        -- the blocked writer takes it and forwards its message
+        ({ s with buffered := b' + n, blocked := none }, .woke n)
+      | none => ({ s with buffered := b', token := true }, .none)
+    else ({ s with buffered := b' }, .none)
   | .hbWrite n => ({ s with buffered := s.buffered + n }, .none)
   | .close =>
     match s.blocked with
